@@ -89,7 +89,16 @@ func RunIngest(sc IngestScenario) (evs []Ev, inconclusive string) {
 		}
 		return nil
 	}
+	sinkGate := make(chan struct{})
+	var firstSink sync.Once
+	sinkParked := make(chan struct{}, 1)
 	s.AddSyncSink(func(rs []map[string]any) {
+		if sc.SampleRace { // the consumer is BUSY in the sink while the buffer is expanded: it does not hold the old reference
+			firstSink.Do(func() {
+				sinkParked <- struct{}{}
+				<-sinkGate
+			})
+		}
 		if sc.SlowSink > 0 {
 			time.Sleep(time.Duration(sc.SlowSink) * time.Microsecond)
 		}
@@ -116,9 +125,10 @@ func RunIngest(sc IngestScenario) (evs []Ev, inconclusive string) {
 		if !in.WaitFor(T, func() bool { return in.NWaiting("exp.enter") > 0 }) {
 			return in.Events(), "expansion did not start (schedule not reproducible on this tree)"
 		}
-		base := in.Count("proc.item")
-		in.Release("proc.ref") // consumer takes one row: usage drops below full but stays above the threshold
-		if !in.WaitFor(T, func() bool { return in.C("proc.item") > base && in.NWaiting("proc.ref") > 0 }) {
+		in.Release("proc.ref") // consumer takes one row (usage drops below full but stays above the threshold) and parks inside the sink
+		select {
+		case <-sinkParked:
+		case <-time.After(T):
 			return in.Events(), "consumer did not take a row"
 		}
 		in.Release("exp.enter") // expander samples cap/len now
@@ -127,11 +137,13 @@ func RunIngest(sc IngestScenario) (evs []Ev, inconclusive string) {
 		}
 		emit(2, 1) // second producer fills the freed slot before the expander takes the write lock
 		in.Disarm()
-		select {
+		select { // expansion (lock, migrate, swap) and the producer's retry complete while the consumer is still busy
 		case <-done:
 		case <-time.After(T):
+			close(sinkGate)
 			return in.Events(), "producer stuck"
 		}
+		close(sinkGate) // the consumer comes back and reads the (new) reference
 	} else if sc.Directed {
 		// consumer is parked at proc.ref holding the reference of the initial channel
 		if !in.WaitFor(T, func() bool { return in.NWaiting("proc.ref") > 0 }) {
